@@ -12,6 +12,21 @@ import ast
 from flow import BaseClient, function_exits
 
 
+PROPERTY_BACKED = {}      # public read-only spelling -> private attribute it returns (`parent` -> `_parent`); filled by init_aliases(repo)
+
+
+def init_aliases(repo):
+    """a property whose getter is `return self._<name>` reads the private attribute: a value saved through the getter is the saved
+    value of the attribute (`p = obj.parent ... obj._parent = p` is a swap/restore pair of `_parent`)"""
+    PROPERTY_BACKED.clear()
+    for cl in repo.cls_by_key.values():
+        for g, fn in cl.getters.items():
+            rets = [r for r in ast.walk(fn) if isinstance(r, ast.Return) and r.value is not None]
+            if len(rets) == 1 and isinstance(rets[0].value, ast.Attribute) and isinstance(rets[0].value.value, ast.Name) and rets[0].value.value.id == "self" \
+                    and rets[0].value.attr == "_" + g and not any(isinstance(x, (ast.Assign, ast.AugAssign, ast.Call)) for x in ast.walk(fn)):
+                PROPERTY_BACKED[g] = "_" + g
+
+
 def recv_attr(t):
     if isinstance(t, ast.Attribute):
         return ast.unparse(t.value), t.attr
@@ -52,7 +67,7 @@ class T1Client(BaseClient):
             if isinstance(n, ast.Assign) and len(n.targets) == 1 and isinstance(n.targets[0], ast.Name):
                 v = n.value
                 if isinstance(v, ast.Attribute):
-                    self.saved[n.targets[0].id] = (ast.unparse(v.value), v.attr)
+                    self.saved[n.targets[0].id] = (ast.unparse(v.value), PROPERTY_BACKED.get(v.attr, v.attr))
                 if (isinstance(v, ast.Call) and isinstance(v.func, ast.Name) and v.func.id == "getattr"
                         and len(v.args) >= 2 and isinstance(v.args[1], ast.Constant)):
                     self.saved[n.targets[0].id] = (ast.unparse(v.args[0]), v.args[1].value)
@@ -85,6 +100,21 @@ class T1Client(BaseClient):
                 for M, (elt2, gens2) in comps.items():
                     if M != L and gens2 == gens and isinstance(elt2, ast.Name) and elt2.id == elt.value.id:
                         saved_lists[L] = (elt.attr, M)
+        # aligned appends, the loop form of the same:  M.append(x) ; L.append(x.a)  in one block, each list appended to nowhere else
+        app = {}
+        for owner_ in ast.walk(fn):
+            for f_ in ("body", "orelse", "finalbody"):
+                blk = getattr(owner_, f_, None)
+                if isinstance(blk, list):
+                    for st in blk:
+                        if isinstance(st, ast.Expr) and isinstance(st.value, ast.Call) and isinstance(st.value.func, ast.Attribute) and st.value.func.attr == "append" \
+                                and isinstance(st.value.func.value, ast.Name) and len(st.value.args) == 1:
+                            app.setdefault(st.value.func.value.id, []).append((id(blk), st.value.args[0]))
+        for L, sites in app.items():
+            if len(sites) == 1 and isinstance(sites[0][1], ast.Attribute) and isinstance(sites[0][1].value, ast.Name) and L not in saved_lists:
+                for M, sites2 in app.items():
+                    if M != L and len(sites2) == 1 and sites2[0][0] == sites[0][0] and isinstance(sites2[0][1], ast.Name) and sites2[0][1].id == sites[0][1].value.id:
+                        saved_lists[L] = (sites[0][1].attr, M)
         for loop in ast.walk(fn):
             if not isinstance(loop, ast.For):
                 continue
@@ -113,6 +143,18 @@ class T1Client(BaseClient):
                     rest_attrs |= h["restores"]
                     plain |= h["overwrites"]
         self.swap_attrs = rest_attrs & plain
+
+    def assume(self, test, branch, S):
+        # `if saved is not None: X.a = saved` after `if saved is not None: X.a = None`: on the path where the saved value is None the
+        # attribute was None all along, and the only overwrite there is stores None again - nothing is pending on that path
+        if isinstance(test, ast.Compare) and len(test.ops) == 1 and isinstance(test.ops[0], (ast.Is, ast.IsNot)) and isinstance(test.left, ast.Name) \
+                and isinstance(test.comparators[0], ast.Constant) and test.comparators[0].value is None and test.left.id in self.saved:
+            if isinstance(test.ops[0], ast.Is) == branch:
+                recv, attr = self.saved[test.left.id]
+                plain_vals = [n.value for n, ra in self.stores if ra == (recv, attr) and id(n) not in self.restores]
+                if plain_vals and all(isinstance(v, ast.Constant) and v.value is None for v in plain_vals):
+                    return frozenset(f for f in S if f[1] != attr)
+        return S
 
     def call_may_raise(self, call):
         h = self.helper_calls.get(id(call))
